@@ -322,8 +322,20 @@ def decoded_frames_untouched(prog, cd, rep, kinds, rule="decoded-frames-untouche
                 stores.append((st, None))
             elif isinstance(st, ast.Expr) and isinstance(st.value, ast.Call) and norm(st.value.func) in ("np.put", "np.place", "np.putmask", "np.copyto") and st.value.args and base(st.value.args[0]) in bufs:
                 stores.append((st, None))
-        first_data = min([st.lineno for st, t in stores if t is not None and (from_stream(st.value) or any(isinstance(x, ast.Name) and x.id in stream_names for x in ast.walk(st.value)))] or [10 ** 9])
-        for st, t in sorted(stores, key=lambda p: p[0].lineno):
+        # statement order in the (normal-form) body: line numbers are useless after inlining (an inlined helper keeps its own)
+        order = {}
+
+        def number(stmts):
+            for s_ in stmts:
+                order[id(s_)] = len(order)
+                for fld in ("body", "orelse", "finalbody"):
+                    number(getattr(s_, fld, []) or [])
+                for h_ in getattr(s_, "handlers", []) or []:
+                    number(h_.body)
+        number(f.node.body)
+        pos = lambda s_: order.get(id(s_), 10 ** 9)
+        first_data = min([pos(st) for st, t in stores if t is not None and (from_stream(st.value) or any(isinstance(x, ast.Name) and x.id in stream_names for x in ast.walk(st.value)))] or [10 ** 9])
+        for st, t in sorted(stores, key=lambda p: pos(p[0])):
             n += 1
             val = st.value if not isinstance(st, ast.Expr) else (st.value.args[-1] if st.value.args else None)
             data = val is not None and isinstance(st, ast.Assign) and (from_stream(val) or any(isinstance(x, ast.Name) and x.id in stream_names for x in ast.walk(val)))
@@ -331,7 +343,7 @@ def decoded_frames_untouched(prog, cd, rep, kinds, rule="decoded-frames-untouche
                 (t is not None and isinstance(t.value, ast.Name) and ((isinstance(t.slice, ast.Slice) and t.slice.lower is None and t.slice.upper is None and t.slice.step is None) or isinstance(t.slice, ast.Constant) and t.slice.value is Ellipsis))
             if data:
                 rep.ok(rule, f"{fq}: `{norm(head(st))[:70]}` stores rows read from the stream")
-            elif val is not None and _is_nan(val) and whole and st.lineno <= first_data:
+            elif val is not None and _is_nan(val) and whole and pos(st) <= first_data:
                 rep.ok(rule, f"{fq}: `{norm(head(st))[:50]}` is the whole-buffer NaN pre-fill, before any data")
             else:
                 rep.fail(rule, mod, fq, st, f"`{norm(head(st))[:80]}` changes the decoder's buffer with something that is not the whole-buffer NaN pre-fill and not rows read from the stream: "
